@@ -17,7 +17,14 @@ From Coq Require Import List ZArith NArith Floats Bool.
 Import ListNotations.
 Require Import Clarabel.Base.Ops Clarabel.Base.Dyadic Clarabel.Cones.Step Clarabel.Nonsym.Model Clarabel.Nonsym.FloatTrans.
 
-Definition ofb (b : bool) : N := if b then 0%N else 1%N.
+(** result codes: 0 = holds; 3 = a BINDING check failed (a statement of the property evaluated on the
+    implementation's outputs, or a tie that does not pass through a dot product / norm / sum whose
+    evaluation order is free); 2 = information only: every binding check holds but the output differs
+    from the transcribed float model by more than the model tolerance (vp/standard.py reports code 2
+    as a note, never as a violation).  Codes are combined with [N.max], so 3 dominates 2. *)
+Definition ofb (b : bool) : N := if b then 0%N else 3%N.
+Definition lvl (binding model_agrees : bool) : N :=
+  if negb binding then 3%N else if model_agrees then 0%N else 2%N.
 Definition maxl (l : list N) : N := fold_left N.max l 0%N.
 Definition fails (start : N) (l : list N) : list (N * N) :=
   let fix go (k : N) (l : list N) : list (N * N) :=
@@ -120,7 +127,7 @@ Definition c_sym3_chol (A : s3f) (b : v3f) (L : option s3f) (x : v3f) : N :=
     let xm := sym3_chol_solve TOpsF Lm b in
     ofb (all6 (rclose 0x1p-40) Lm Lr && all3 (rclose 0x1p-30) xm x
          && Hx_plus_y_zero 30 A x (neg3 b))
-  | _, _ => 1%N
+  | _, _ => 3%N
   end.
 
 (** ** feasibility predicates (the harness keeps samples away from the boundary by a relative
@@ -204,25 +211,34 @@ Definition c_wright (z w : float) : N :=
 (** ** update_scaling.  g, H, Hs = stored grad, H_dual, Hs after the call; zt = the value
     of gradient_primal(s) returned by the Rust code (conjugacy-checked by [c_*_gradp]).
     Which branch the model takes is decided with a guard band around the thresholds. *)
-Definition scaling_ok (tol : float) (dual : bool) (g : v3f) (H Hs : s3f) (zt s z : v3f) (mu : float) : bool :=
-  if dual then all6 (rclose 0x1p-48) (sym3_scaled_from TOpsF mu H) Hs
+Definition abs_dot3 (a b : v3f) : float :=
+  let '(a0, a1, a2) := a in let '(b0, b1, b2) := b in fabs (a0 * b0) + fabs (a1 * b1) + fabs (a2 * b2).
+(** BINDING (on the Rust outputs): Dual strategy: Hs = mu H entrywise.  PrimalDual strategy: Hs is
+    either the fall-back (<s,z>/3) H -- up to the rounding of the dot product <s,z>, whose relative
+    error is eps * sum|s_i z_i| / |<s,z>| whatever the summation order -- or satisfies, exactly
+    evaluated, Hs z = s and Hs zt = st (relative to sum|terms|) and has non-negative minors; which of
+    the two is legitimate is decided by the model's branch quantities with a guard band.
+    INFORMATION (code 2): agreement of Hs with the transcribed float model of the primal-dual matrix
+    (this is the only place where the coefficient t = mu ||W||_F of the third axis is compared). *)
+Definition scaling_lvl (tol : float) (dual : bool) (g : v3f) (H Hs : s3f) (zt s z : v3f) (mu : float) : N :=
+  if dual then lvl (all6 (rclose 0x1p-48) (sym3_scaled_from TOpsF mu H) Hs) true
   else
     let t := pd_scaling_terms TOpsF H g zt s z in
     let fallback := sym3_scaled_from TOpsF (pd_mu t) H in
-    let is_fb := all6 (rclose 0x1p-48) fallback Hs in
+    let cond_sz := abs_dot3 s z / fabs (pd_dot_sz t) in
+    let is_fb := all6 (rclose (0x1p-46 * fmax 1 cond_sz)) fallback Hs in
     let pdm := pd_scaling_matrix TOpsF H g zt s z in
-    let is_pd := close6 tol (sig3 pdm) pdm Hs
-                 && Hx_plus_y_zero 22 Hs z (neg3 s) && Hx_plus_y_zero 22 Hs zt (neg3 g)
-                 && spd_ok 30 Hs in
+    let secant := Hx_plus_y_zero 22 Hs z (neg3 s) && Hx_plus_y_zero 22 Hs zt (neg3 g) && spd_ok 30 Hs in
     let clearly_pd := PrimFloat.ltb 0x1p-20 (fabs (pd_de1 t)) && PrimFloat.ltb 0x1p-40 (fabs (pd_de2 t))
                       && PrimFloat.ltb 0 (pd_dot_sz t) && PrimFloat.ltb 0x1p-30 (pd_dot_dsz t / pd_dot_sz t) in
     let clearly_fb := PrimFloat.ltb (fabs (pd_de1 t)) 0x1p-32 || PrimFloat.leb (pd_dot_sz t) 0
                       || PrimFloat.ltb (pd_dot_dsz t) 0 in
-    if clearly_pd then is_pd else if clearly_fb then is_fb else is_pd || is_fb.
+    let binding := if clearly_pd then secant else if clearly_fb then is_fb else secant || is_fb in
+    lvl binding (is_fb || close6 tol (sig3 pdm) pdm Hs).
 Definition c_exp_scaling (tol : float) (dual : bool) (s z : v3f) (mu : float) (g : v3f) (H Hs : s3f) (zt : v3f) : N :=
-  ofb (scaling_ok tol dual g H Hs zt s z mu).
+  scaling_lvl tol dual g H Hs zt s z mu.
 Definition c_pow_scaling (tol al : float) (dual : bool) (s z : v3f) (mu : float) (g : v3f) (H Hs : s3f) (zt : v3f) : N :=
-  ofb (scaling_ok tol dual g H Hs zt s z mu).
+  scaling_lvl tol dual g H Hs zt s z mu.
 (** y = Hs x through mul_Hs / get_Hs *)
 Definition c_mul_Hs (Hs : s3f) (x y : v3f) (packed : list float) : N :=
   let '(y0, y1, y2) := y in
@@ -274,10 +290,13 @@ Definition c_gp_mulHs (tol : float) (r : @gp_data float) (mu : float) (xu xw y :
   let ym := yu ++ yw in
   let sc := fold_left fmax (map fabs (ym ++ y)) 0 in
   let g := gp_grad_u r ++ gp_grad_w r in
-  ofb (closel tol (map (fun _ => sc) ym) ym y
-       && closel 0x1p-24 (map (fun p => fmax (fabs (fst p)) (fabs (mu * snd p))) (combine yz g))
+  (* binding: H z = -mu grad on the outputs, diagonal block = mu (d1, d2);
+     information: mul_Hs on a random x against the model formula (three dot products whose
+     rounding depends on the summation order and can cancel) *)
+  lvl (closel 0x1p-24 (map (fun p => fmax (fabs (fst p)) (fabs (mu * snd p))) (combine yz g))
                  yz (map (fun gi => - (mu * gi)) g)
-       && alll (rclose 0x1p-48) (map (fun d => mu * d) (gp_d1 r) ++ map (fun _ => mu * gp_d2 r) zw) diag).
+       && alll (rclose 0x1p-48) (map (fun d => mu * d) (gp_d1 r) ++ map (fun _ => mu * gp_d2 r) zw) diag)
+      (closel tol (map (fun _ => sc) ym) ym y).
 (** primal gradient: conjugacy in the local scale at -g, <g,s> = -(dim1+1) *)
 Definition gp_conj_ok (tol : float) (al u w gu gw : list float) : bool :=
   let nu := map PrimFloat.opp gu in let nw := map PrimFloat.opp gw in
@@ -313,7 +332,7 @@ Definition bt_pred3 (kind : N) (al : float) (p : v3f) : bool :=
 Definition bt_ok (inc : float -> bool) (a0 amin step r : float) : N :=
   match backtrack OpsF 20000 inc a0 amin step with
   | Some m => ofb (feq m r && (feq r 0 || inc r))
-  | None => 1%N
+  | None => 3%N
   end.
 Definition c_bt3 (kind : N) (al : float) (q dq : v3f) (a0 amin step r : float) : N :=
   bt_ok (fun a => bt_pred3 kind al (step3f q dq a)) a0 amin step r.
@@ -355,7 +374,7 @@ Definition c_scaling_cov (tol lam : float) (k : Z) (Hs1 Hs2 : s3f) : N :=
     vector that [higher_correction] returns when the factorisation is reported to fail. *)
 Definition c_hc_cov (tol lam : float) (H2 : s3f) (ds2 v2 eta1 eta2 : v3f) : N :=
   match sym3_chol_factor TOpsF H2 with
-  | None => 1%N
+  | None => 3%N
   | Some L =>
     let u := sym3_chol_solve TOpsF L ds2 in
     let nu := PrimFloat.sqrt (sym3_quad_form TOpsF H2 u u) in
